@@ -46,6 +46,8 @@ var c20Values = []struct {
 	{gmodel.Num("0.5", "1/2"), true},
 	{gmodel.Num("1000.5", "2001/2"), false},
 	{gmodel.Num("1,00,000.00", "100000"), false},
+	{gmodel.Num("0.125", "1/8"), true},
+	{gmodel.Num("0,250", "1/4"), true},
 }
 
 func c20Amount(i int, sym string) *gmodel.Amount {
